@@ -66,26 +66,17 @@ Lemma outs_sound :
   (forall a o, run_arms a o -> may o (outs_arms a) = true) /\
   (forall lt b o, run_loop lt b o -> may o (o_loop lt (outs_block b)) = true).
 Proof.
-  apply run_mutind; intros; simpl; try reflexivity.
-  - destruct v; reflexivity.
-  - assumption.
-  - assumption.
-  - assumption.
-  - destruct (has_default a); [assumption | rewrite may_join, H0; reflexivity].
-  - rewrite H. reflexivity.
-  - assumption.
-  - apply may_seq. left. split; assumption.
-  - apply may_seq. right. split; assumption.
-  - rewrite may_join, H0. reflexivity.
-  - rewrite may_join, orb_true_r. reflexivity.
-  - rewrite may_join, H0, orb_true_r. reflexivity.
-  - rewrite may_join, H0, orb_true_r. reflexivity.
-  - rewrite may_join, H0. reflexivity.
-  - rewrite may_join, H0, orb_true_r. reflexivity.
-  - apply may_loop. left. split; [reflexivity | right; assumption].
-  - apply may_loop. right. exists v. split; [reflexivity | assumption].
-  - assumption.
-  - assumption.
+  apply run_mutind; intros; simpl;
+    try solve
+      [ reflexivity | assumption | destruct v; reflexivity
+      | match goal with H : has_default _ = false |- _ => rewrite H end; simpl; apply orb_true_r
+      | destruct (has_default a); [assumption | rewrite may_join; match goal with H : may _ _ = true |- _ => rewrite H end; reflexivity]
+      | rewrite ?may_join; repeat match goal with H : may _ _ = true |- _ => rewrite H end; rewrite ?orb_true_r; reflexivity
+      | apply may_seq; left; split; assumption
+      | apply may_seq; right; split; assumption
+      | apply may_loop; left; split; [reflexivity | auto]
+      | apply may_loop; right; eexists; split; [reflexivity | eassumption] ].
+  simpl in H0. rewrite H0. apply orb_true_r.
 Qed.
 
 (* completeness: every predicted outcome is realised by some assignment of guard outcomes *)
@@ -123,7 +114,7 @@ Proof.
   - rewrite may_join in H1. apply orb_true_iff in H1. destruct H1 as [E | E].
     + apply RThen. auto.
     + apply H0. exact E.
-  - apply may_normal in H. subst. constructor.
+  - apply may_normal in H. subst. apply RNoElse.
   - apply RElse. auto.
   - apply RElseIf. auto.
   - rewrite may_bot in H. discriminate.
@@ -174,10 +165,11 @@ Definition graph_covers_runs (body : block) : Prop :=
 Lemma accepted_no_fall_given_cover body p :
   graph_covers_runs body -> accepted p body = true -> ~ falls_off body.
 Proof.
-  intros C A F. unfold accepted, check_body in A. destruct (analysed p); [|discriminate]. simpl in A.
-  repeat (apply andb_true_iff in A; destruct A as [A ?]).
-  apply negb_true_iff in H3. apply negb_false_iff in H3.
-  exact (all_paths_return_no_path _ H3 (C _ F eq_refl)).
+  intros C A F. unfold accepted in A. rewrite !andb_true_iff in A.
+  destruct A as [[[[[Ha Hm] _] _] _] _].
+  unfold check_body in Hm. rewrite Ha in Hm. simpl in Hm.
+  apply negb_true_iff in Hm. apply negb_false_iff in Hm.
+  exact (all_paths_return_no_path _ Hm (C _ F eq_refl)).
 Qed.
 
 (* ---- non-vacuity / regression examples ---- *)
